@@ -95,6 +95,7 @@ type Explorer struct {
 	queries       int
 	definite      int
 	unknowns      int
+	retried       int // unknown one-shot answers asked again with a larger limit
 	solveTime     time.Duration
 	steps         int64
 	maxViol       int
